@@ -132,12 +132,16 @@ def builtin_representative_differs(probe, a, b):
         if probe['m'] in ('infer', 'goto', 'help'):
             if not all(len(x) == 8 for x in a + b):
                 return False
-            sa, sb = sorted(a, key=lambda x: x[:7]), sorted(b, key=lambda x: x[:7])
+            sa, sb = sorted(a, key=lambda x: x[:5]), sorted(b, key=lambda x: x[:5])
             for x, y in zip(sa, sb):
-                if x[:7] != y[:7]:
+                if x[:5] != y[:5]:
                     return False
-                if x[7] != y[7] and not (x[2] is None and x[1] == 'instance' and str(x[5]).startswith('builtins.')):
-                    return False
+                if x[5:] != y[5:]:
+                    # the survivors may differ in full_name / description / docstring only if they are
+                    # path-less names of builtin objects (e.g. int.real vs float.real of a value set
+                    # holding an int and a float: equal "in an API sense", one of them is kept)
+                    if not (x[2] is None and str(x[5]).startswith('builtins.') and str(y[5]).startswith('builtins.')):
+                        return False
             return True
         if probe['m'] == 'complete':
             for x, y in zip(a, b):
